@@ -109,10 +109,27 @@ def one_model(ctx, prog, script, rng):
                            [''] + [f'p{i}' for i in range(1, n)], [f'p{i}' for i in range(n - 1)] + [0.0]])
         ctx.seen('span_shapes', 'falsy-label' if any(not x for x in span) else 'plain')
 
+        # sometimes an endogenous variable is initialised from another variable's series by a whole-series assignment
+        # (`m.C = m.X`): they must stay two series - solving still changes only the cells the equations assign
+        seed_from = None
+        endo_names = [x for x in Model.ENDOGENOUS]
+        others = [x for x in names if x not in endo_names]
+        if endo_names and others and rng.random() < 0.3:
+            seed_from = (rng.choice(endo_names), rng.choice(others), rng.choice(['attr', 'item', 'replace_values']))
+            ctx.count('models_seeded_from_another_series')
+
         def fresh():
             m = Rec(span)
             for nm in names:
                 m.__dict__['_' + nm][:] = data[nm]
+            if seed_from is not None:
+                e_, x_, how = seed_from
+                if how == 'attr':
+                    setattr(m, e_, getattr(m, x_))
+                elif how == 'item':
+                    m[e_] = m[x_]
+                else:
+                    m.replace_values(**{e_: m[x_]})
             m.__dict__['v_log'] = rec.install(m)
             return m
 
